@@ -35,8 +35,9 @@ class ChangeForStep(RewritePattern):
     Rewrites a for loop to use step 1.
     Currently supported are for loops:
         - without index_args
-        - step, ub and lb defined as constants and
-        - lb == 0
+        - step, ub and lb defined as constants,
+        - lb == 0 and
+        - step > 0
     """
 
     @op_type_rewrite_pattern
@@ -58,9 +59,14 @@ class ChangeForStep(RewritePattern):
         if step == 1:
             return
 
-        # otherwise, replace op with a new one that uses step 1 and ub = ub // step
+        # step must be positive
+        if step <= 0:
+            return
+
+        # otherwise, replace op with a new one that uses step 1 and ub = ceil(ub / step),
+        # such that the last partial iteration is kept when step does not divide ub
         new_step = ConstantOp.from_int_and_width(1, IndexType())
-        new_ub = ConstantOp.from_int_and_width(ub // step, IndexType())
+        new_ub = ConstantOp.from_int_and_width((ub + step - 1) // step, IndexType())
         new_for = ForOp(
             op.lb,
             new_ub,
